@@ -154,6 +154,14 @@ def run(tier):
         r = matchlib.impl_check_output(matchlib.to_str(g), matchlib.to_str(w), matchlib.runstate(F))
         ntrue += r
         events.append({'k': 'check_output', 'got': g, 'want': w, 'flags': sorted(F), 'res': r})
+    # long texts with 45..70 blanks written differently in the want
+    nlong = 0
+    for g, w in matchlib.derive_long_blank_pairs(rng, 60 if tier == 'quick' else 800):
+        for F in (frozenset(['IGNORE_WHITESPACE']), frozenset(['NORMALIZE_WHITESPACE']), frozenset(['IGNORE_WHITESPACE', 'ELLIPSIS', 'NORMALIZE_REPR'])):
+            r = matchlib.impl_check_output(matchlib.to_str(g), matchlib.to_str(w), matchlib.runstate(F))
+            events.append({'k': 'check_output', 'got': list(g), 'want': list(w), 'flags': sorted(F), 'res': r})
+            nlong += 1
+    out.extra['long_blank_triples'] = nlong
     bad = matchlib.validate_trace(events, out, 'random-longer')
     for e in bad[:10]:
         out.violation({'kind': 'trace_check_output'},
